@@ -59,6 +59,7 @@ type caseT struct {
 	Op    string    `json:"op"` // insert | update
 	Spec  spec      `json:"spec"`
 	Prev  *spec     `json:"prev,omitempty"`  // update: the entry that was there before
+	Rmw   *rmwRef   `json:"rmw,omitempty"`   // read-modify-update domain (Spec and Op are unused)
 	Value *valueRef `json:"value,omitempty"` // value domain: base entry + one attribute value (Spec is unused)
 }
 
@@ -432,7 +433,9 @@ func run(r *mc.Run) {
 		s := openSut(c.Store)
 		defer s.close()
 		var vs []verdict
-		if c.Value != nil {
+		if c.Rmw != nil {
+			_, vs = s.rmwRoundTrip(c.Dir, *c.Rmw)
+		} else if c.Value != nil {
 			_, vs = s.valueRoundTrip(c.Dir, c.Op, *c.Value)
 		} else {
 			_, vs, _ = s.roundTrip(c.Dir, c.Op, c.Spec, c.Prev)
@@ -463,6 +466,7 @@ func run(r *mc.Run) {
 	}
 	sps := specs(r.Quick())
 	r.Set("entries", len(sps))
+	r.Set("read_modify_update_cases", len(rmwRefs(r.Quick())))
 	r.Set("value_cases", len(valueCases)*len(baseSpecs)*2)
 	r.Set("store_directory_units", len(units))
 	tallies := make([]flib.Tally, len(units))
@@ -480,8 +484,20 @@ func run(r *mc.Run) {
 				for _, v := range vs {
 					if !seen[v.class] {
 						seen[v.class] = true
-						pends[i] = append(pends[i], pend{v, caseT{u.kind, u.dir, op, sp, prev, nil}})
+						pends[i] = append(pends[i], pend{v, caseT{Store: u.kind, Dir: u.dir, Op: op, Spec: sp, Prev: prev}})
 					}
+				}
+			}
+		}
+		// read-modify-update histories
+		for _, ref := range rmwRefs(r.Quick()) {
+			ref := ref
+			class, vs := s.rmwRoundTrip(u.dir, ref)
+			t.Add(class)
+			for _, v := range vs {
+				if !seen[v.class] {
+					seen[v.class] = true
+					pends[i] = append(pends[i], pend{v, caseT{Store: u.kind, Dir: u.dir, Op: "update", Rmw: &ref}})
 				}
 			}
 		}
@@ -529,7 +545,9 @@ func run(r *mc.Run) {
 					shared[p.c.Store] = s
 				}
 				var vs []verdict
-				if p.c.Value != nil {
+				if p.c.Rmw != nil {
+					_, vs = s.rmwRoundTrip(p.c.Dir, *p.c.Rmw)
+				} else if p.c.Value != nil {
 					_, vs = s.valueRoundTrip(p.c.Dir, p.c.Op, *p.c.Value)
 				} else {
 					_, vs, _ = s.roundTrip(p.c.Dir, p.c.Op, p.c.Spec, p.c.Prev)
@@ -543,7 +561,7 @@ func run(r *mc.Run) {
 			})
 		}
 	}
-	r.Sample("entry", caseT{"leveldb3", "/buckets/b1", "insert", spec{Mime: 1, Md5: true, HardLink: true, Content: 2, Chunks: 51, Flavour: 1}, nil, nil})
-	r.Sample("entry", caseT{"leveldb", "/r", "update", spec{Extended: true, Chunks: 2, Flavour: 4}, &spec{Chunks: 60, Flavour: 2}, nil})
+	r.Sample("entry", caseT{"leveldb3", "/buckets/b1", "insert", spec{Mime: 1, Md5: true, HardLink: true, Content: 2, Chunks: 51, Flavour: 1}, nil, nil, nil})
+	r.Sample("entry", caseT{"leveldb", "/r", "update", spec{Extended: true, Chunks: 2, Flavour: 4}, &spec{Chunks: 60, Flavour: 2}, nil, nil})
 	r.Sample("value", caseT{Store: "leveldb2", Dir: "/r", Op: "insert", Value: &valueRef{"mode", "setuid-0755", 1}})
 }
